@@ -27,10 +27,9 @@ def setup(J):
                         mode = "dpor" if sum(lens) <= 3 else "delay"
                         jobs.append(comp(f"{comp_name}-l{''.join(map(str, lens))}-mo{v}", tier, {"comp": comp_name, "lens": ",".join(map(str, lens)), "buf": 1 if sum(lens) < 5 else 2},
                                          force_all=(v if v else -1), mode=mode, **({"delay": 1} if mode == "delay" else {})))
-            # the documented use of the parameter combinator: one process consuming all its out-ports in lock-step
-            if comp_name == "paramcombinator":
-                for lens in ("2,2", "1,3", "2,1,2"):
-                    jobs.append(comp(f"paramcombinator-l{lens.replace(',', '')}-one-consumer", tier, {"comp": "paramcombinator", "lens": lens, "buf": 1, "zip": 1}, mode="delay", delay=1))
+            # the documented use of the combinators: one process consuming all out-ports in lock-step
+            for lens in (("2,2", "1,3", "2,1,2") if comp_name == "paramcombinator" else ("2,2", "1,3")):
+                jobs.append(comp(f"{comp_name}-l{lens.replace(',', '')}-one-consumer", tier, {"comp": comp_name, "lens": lens, "buf": 1, "zip": 1}, mode="delay", delay=1))
             # streams beyond the buffer size, independent upstreams
             jobs.append(comp(f"{comp_name}-l32-buf1", tier, {"comp": comp_name, "lens": "3,2", "buf": 1}, mode="delay", delay=1))
             if not q:
@@ -45,6 +44,9 @@ def setup(J):
             for per in (1, 2, 3, 4):
                 for nl in (1, 0):
                     jobs.append(comp(f"splitter-n{n}-per{per}-nl{nl}", tier, {"comp": "splitter", "lines": n, "per": per, "newline": nl}, mode="delay", delay=0 if q else 1, budget=15))
+        # a line longer than an I/O buffer (5000 bytes > bufio's 4096) in every position of a 3-line file
+        for k in (0, 1, 2):
+            jobs.append(comp(f"splitter-n3-per2-long-line{k}", tier, {"comp": "splitter", "lines": 3, "per": 2, "newline": 1, "longline": f"{k}:5000"}, mode="delay", delay=0 if q else 1, budget=15))
         # several files through ONE splitter instance
         for lens in (("4,5", "7,8,2", "0,3", "3,3") if q else ("4,5", "7,8,2", "0,3", "3,3", "1,1,1", "6,0,6", "2,9")):
             for per in (1, 3):
